@@ -45,8 +45,10 @@ theorem esCompute_sugOps (cfg : Cfg) (st : Study) (id : Nat) (es : EsOutcome) :
   · split <;> simp
   · simp only
     split
-    · simp [updateMetadata_sugOps]
     · split <;> simp [updateMetadata_sugOps]
+    · split
+      · split <;> simp [updateMetadata_sugOps]
+      · simp [updateMetadata_sugOps]
 theorem earlyStopBody_sugOps (cfg : Cfg) (st : Study) (id : Nat) (es : EsOutcome) :
     (earlyStopBody cfg st id es).2.sugOps = st.sugOps := by
   unfold earlyStopBody
